@@ -1012,7 +1012,10 @@ func (db *DB) initDatabaseFile() error {
 	// short compared to the page count in the header so just checksum what we
 	// can. The database may recover in applyLTX() so we'll do validation then.
 	db.chksums.pages = make([]ltx.Checksum, db.PageN())
-	db.chksums.blocks = make([]ltx.Checksum, pageChksumBlock(db.PageN()))
+	db.chksums.blocks = nil
+	if db.PageN() > 0 { // a header may declare no pages (in-header size 0)
+		db.chksums.blocks = make([]ltx.Checksum, pageChksumBlock(db.PageN()))
+	}
 
 	lastGoodPage, err := ltx.ChecksumPages(db.DatabasePath(), db.pageSize, db.PageN(), 0, db.chksums.pages)
 
